@@ -451,7 +451,8 @@ def calculate_structure_function(phase, nbOfPoint=None, step=None):
         step = 1
     step = int(step)
     xm = int(numpy.min([nbOfPoint, phase.shape[1] / step - 1]))
-    sf_x = numpy.empty(xm)
+    # lag 0 is never visited by the loop below: the structure function is 0 there
+    sf_x = numpy.zeros(xm)
     for i in range(step, xm * step, step):
         sf_x[int(i / step)] = numpy.mean((phase[0:-i, :] - phase[i:, :])**2)
 
